@@ -261,7 +261,7 @@ var hlslBackend = textBackend{
 var mslBackend = textBackend{
 	name: "msl",
 	cfg: func() wgen.Config {
-		return wgen.Config{Off: wgen.SafeOff("inline-const-precedence", "fn.dot.int", "fn.select", "postfix-on-compound", "fn.round", "fn.sign", "fn.firstLeadingBit", "fn.firstTrailingBit", "swizzle.on-constructor", "ptr.dynamic-element")}
+		return wgen.Config{Off: wgen.SafeOff("inline-const-precedence", "fn.dot.int", "fn.select", "postfix-on-compound", "fn.round", "fn.sign", "fn.firstLeadingBit", "fn.firstTrailingBit", "swizzle.on-constructor", "ptr.dynamic-element", "ptr.struct-vec3-member")}
 	},
 	nopt:    func(th bool) int { return len(mslOptionSets(th)) },
 	optName: func(th bool, i int) string { return mslOptionSets(th)[i].name },
@@ -484,7 +484,7 @@ func textDiffEval(c *run.Ctx, be textBackend, id string, prog *wgen.Program, see
 			}
 			bad := false
 			for _, t := range tr.static {
-				note(run.Outcome{V: run.Violated, Class: "static:" + string(t.Kind), Reason: fmt.Sprintf("%s [%s]: %s%s", id, oname, oneLineN(t.Error(), 400), emittedLine(tr.text, t.Error())), Witness: w})
+				note(run.Outcome{V: run.Violated, Class: "static:" + string(t.Kind), Reason: fmt.Sprintf("%s [%s]: %s%s%s", id, oname, oneLineN(t.Error(), 400), emittedLine(tr.text, t.Error()), staticTraits(prog)), Witness: w})
 				bad = true
 				break
 			}
@@ -607,4 +607,27 @@ func oneLineN(s string, n int) string {
 		s = s[:n] + "…"
 	}
 	return s
+}
+
+// staticTraits: AST traits used to attribute listed findings whose symptom is a static error in the emitted text.
+// typed-splat-let: a function declares `let x: vecN<T> = <constant vector expression>`; the lowered module
+// records no type for that splat (finding under C09), and the GLSL writer then treats x as a scalar in conversions and
+// in its integer-dot expansion (F111).
+func staticTraits(prog *wgen.Program) string {
+	found := false
+	for _, f := range prog.M.Funcs() {
+		wgen.WalkStmts(f.Body, func(st wgen.Stmt) {
+			vd, ok := st.(*wgen.VarDecl)
+			if !ok || vd.V.Kind != wgen.VLet || !vd.V.HasType || vd.V.Ty == nil || vd.V.Ty.Kind != wgen.KVec {
+				return
+			}
+			if vd.Init != nil && wgen.Constish(vd.Init) {
+				found = true // the initialiser is folded to a constant splat / compose whose type is not recorded
+			}
+		}, nil)
+	}
+	if found {
+		return " traits=[typed-splat-let]"
+	}
+	return ""
 }
